@@ -305,7 +305,20 @@ pub fn dump_graph(g: &CompositionGraph, pkg_ids: &[PackageId]) -> GraphDump {
             }
             NodeKind::Definition => {
                 d.n_def += 1;
+                // a definition whose type is an alias of another definition's type
+                let alias_of = match node.item_kind() {
+                    ItemKind::Type(Type::Value(ValueType::Defined(id))) => match &types[id] {
+                        DefinedType::Alias(aliased @ ValueType::Defined(_)) => ids.iter().copied().find(|m| {
+                            matches!(g[*m].kind(), NodeKind::Definition)
+                                && g[*m].item_kind() == ItemKind::Type(Type::Value(*aliased))
+                        }),
+                        _ => None,
+                    },
+                    _ => None,
+                };
                 t.s("def");
+                let a = alias_of.map(|m| node_index(m).to_string());
+                t.opt(a.as_deref());
             }
         }
         let k = node.item_kind();
